@@ -99,7 +99,7 @@ func (w *c05world) tok(p string) string {
 
 var memMeta = map[string]webdav.FileInfo{
 	"f1":       {Size: 6, ModTime: time.Date(2021, 3, 1, 12, 34, 56, 789000000, time.FixedZone("p3", 3*3600)), MIMEType: "text/plain; charset=utf-8", ETag: `a"b\c`},
-	"f2":       {Size: 1 << 40, ModTime: time.Date(1999, 12, 31, 23, 59, 59, 0, time.FixedZone("m930", -9*3600-1800)), MIMEType: "text/html", ETag: "ü é W/x"},
+	"f2":       {Size: 1 << 40, ModTime: time.Date(1999, 12, 31, 23, 59, 59, 0, time.FixedZone("m930", -9*3600-1800)), MIMEType: `Text/HTML;Charset="utf-8"; x=1 ;a=b`, ETag: "ü é W/x"}, // a valid but not canonical spelling: reported as the backend holds it
 	"d1/f3":    {Size: 9, ModTime: time.Date(2038, 1, 19, 3, 14, 8, 0, time.UTC), MIMEType: "application/octet-stream", ETag: "e3"},
 	"d1/d2/f3": {Size: 0, ModTime: time.Date(2000, 2, 29, 0, 0, 0, 0, time.UTC), MIMEType: "", ETag: "e4"},
 }
@@ -286,7 +286,19 @@ func c05one(c C05Case, concName, scratch string, ev map[string]interface{}) {
 			return
 		}
 		ev["got"] = []objRow{fiRow(w, *fi, true)}
-	case "readdir":
+	case "readdir", "readdirhuge":
+		if c.K == "readdirhuge" && w.mem != nil {
+			// a listing that is large in size only (about 2 MB of multi-status)
+			for i := 0; i < 4500; i++ {
+				w.mem.Put(webdav.FileInfo{Path: fmt.Sprintf("%s/member %04d with a fairly long name to make the entry big.txt", target, i), Size: int64(i), ModTime: time.Unix(1600000000+int64(i), 0), MIMEType: "text/plain; charset=utf-8", ETag: fmt.Sprintf("tag-%d", i)}, nil)
+			}
+			for p, f := range w.mem.Files {
+				if strings.Contains(p, "/member ") {
+					f.Info.Size = 7
+				}
+			}
+			w.mem.Take()
+		}
 		// want: the collection itself and its members (direct, or all descendants), from the backend's own listing
 		var wantInfos []webdav.FileInfo
 		var lister webdav.FileSystem = webdav.LocalFileSystem(w.root)
